@@ -20,6 +20,7 @@ import (
 	"bytes"
 	"context"
 	"errors"
+	"net/url"
 	"sync"
 	"time"
 
@@ -160,6 +161,13 @@ func (p *provider) watchChanges(ctx context.Context, rsf RuleSetFetcher) error {
 		p.l.Warn().Err(err).
 			Str("_endpoint", rsf.ID()).
 			Msg("Failed to fetch rule set")
+
+		var netErr *url.Error
+		if errors.As(err, &netErr) {
+			// network issues (dns errors, refused connections, timeouts and alike):
+			// the rule set previously received from this endpoint is preserved
+			return err
+		}
 
 		if !errors.Is(err, config2.ErrEmptyRuleSet) &&
 			(errors.Is(err, heimdall.ErrInternal) || errors.Is(err, heimdall.ErrConfiguration)) {
